@@ -31,7 +31,6 @@ import (
 	"github.com/go-git/go-git/v6/plumbing/format/packfile"
 	"github.com/go-git/go-git/v6/plumbing/format/revfile"
 	plumbhash "github.com/go-git/go-git/v6/plumbing/hash"
-	"github.com/go-git/go-git/v6/storage"
 	"github.com/go-git/go-git/v6/utils/ioutil"
 	"github.com/go-git/go-git/v6/x/fdpool"
 )
@@ -140,6 +139,12 @@ func validReferenceName(name plumbing.ReferenceName) error {
 		// but not a bare ".", so reject that component explicitly too.
 		if part == "." || pathutil.IsHFSDot(part, ".") || pathutil.IsNTFSDot(part, ".", "") {
 			return fmt.Errorf("%w: %q", ErrReferenceNameEscape, s)
+		}
+		// "<name>.lock" is the lock file of the reference <name> (see
+		// lockRef): as a reference it would be read half-written, and
+		// removing it would break the lock. git refuses such names too.
+		if strings.HasSuffix(part, refLockSuffix) {
+			return fmt.Errorf("%w: %q", plumbing.ErrInvalidReferenceName, s)
 		}
 	}
 	return nil
@@ -1280,35 +1285,6 @@ func (d *DotGit) readReferenceFrom(rd io.Reader, name string) (ref *plumbing.Ref
 	return plumbing.NewReferenceFromStrings(name, line), nil
 }
 
-// checkReferenceAndTruncate reads the reference from the given file, or the `pack-refs` file if
-// the file was empty. Then it checks that the old reference matches the stored reference and
-// truncates the file.
-func (d *DotGit) checkReferenceAndTruncate(f billy.File, old *plumbing.Reference) error {
-	if old == nil {
-		return nil
-	}
-
-	ref, err := d.readReferenceFrom(f, old.Name().String())
-	if errors.Is(err, ErrEmptyRefFile) {
-		// This may happen if the reference is being read from a newly created file.
-		// In that case, try getting the reference from the packed refs file.
-		ref, err = d.packedRef(old.Name())
-	}
-
-	if err != nil {
-		return err
-	}
-
-	if ref.Hash() != old.Hash() {
-		return storage.ErrReferenceHasChanged
-	}
-	_, err = f.Seek(0, io.SeekStart)
-	if err != nil {
-		return err
-	}
-	return f.Truncate(0)
-}
-
 // SetRef stores a reference, optionally checking that old matches the current value.
 func (d *DotGit) SetRef(r, old *plumbing.Reference) error {
 	if err := validReferenceName(r.Name()); err != nil {
@@ -1431,8 +1407,24 @@ func (d *DotGit) packedRef(name plumbing.ReferenceName) (*plumbing.Reference, er
 }
 
 // RemoveRef removes a reference by name.
-func (d *DotGit) RemoveRef(name plumbing.ReferenceName) error {
+func (d *DotGit) RemoveRef(name plumbing.ReferenceName) (err error) {
 	if err := validReferenceName(name); err != nil {
+		return err
+	}
+
+	// The reference is removed under its lock, like any other update: a
+	// CheckAndSetReference that compared its old value before this removal
+	// must not put its new value in place after it. ENOTDIR: a parent
+	// component of the name is itself a loose ref file, so there is no loose
+	// file of this name, nor anybody who could be writing one.
+	lock, err := d.lockRef(name.String(), refLockTimeout)
+	if err == nil {
+		defer func() {
+			if uerr := d.unlockRef(name.String(), lock); err == nil {
+				err = uerr
+			}
+		}()
+	} else if !errors.Is(err, syscall.ENOTDIR) {
 		return err
 	}
 
@@ -1649,6 +1641,11 @@ func (d *DotGit) walkReferencesTree(refs *[]*plumbing.Reference, relPath []strin
 				return err
 			}
 
+			continue
+		}
+
+		// the lock file of a reference that is being updated (see lockRef)
+		if strings.HasSuffix(f.Name(), refLockSuffix) {
 			continue
 		}
 
